@@ -14,6 +14,7 @@ import (
 	"math"
 	"math/rand"
 	"os"
+	"path/filepath"
 	"sort"
 	"strings"
 	"testing"
@@ -177,7 +178,7 @@ func lcDirect(files []string) *licenseclassifier.License {
 		if !strings.HasSuffix(f, ".txt") {
 			continue
 		}
-		if err := sc.AddValue(strings.TrimSuffix(f, ".txt"), licenseclassifier.TrimExtraneousTrailingText(lcRead(f))); err != nil {
+		if err := sc.AddValue(strings.TrimSuffix(filepath.Base(f), ".txt"), licenseclassifier.TrimExtraneousTrailingText(lcRead(f))); err != nil {
 			panic(err)
 		}
 	}
@@ -222,12 +223,14 @@ func TestVerifC15(t *testing.T) {
 	nq := vuEnvInt("VERIF_QUERIES", 20)
 	orig := licenseclassifier.ReadLicenseFile
 	synth := map[string]string{
-		"Synthetic-Short.txt": "Permission to frobnicate this software is hereby granted under the license terms below.\nEND OF TERMS AND CONDITIONS\ntrailing text that is cut",
+		"Synthetic-Short.txt":       "Permission to frobnicate this software is hereby granted under the license terms below.\nEND OF TERMS AND CONDITIONS\ntrailing text that is cut",
 		"Synthetic-Only-Notice.txt": "Copyright 2020 Example Corp\nAll rights reserved.\n",
-		"Synthetic.header.txt": "This work is licensed under the synthetic license version 1 see the terms for your rights",
+		"Synthetic.header.txt":      "This work is licensed under the synthetic license version 1 see the terms for your rights",
 		// a name with extensions inside it, and a file that says what another one says (in other case and wrapping)
 		"Synthetic.txt.dist.hash-2.txt": "Redistribution of the frobnicator in source and binary forms is permitted provided that this notice is retained in full",
-		"Synthetic-Twin.txt":            "REDISTRIBUTION OF THE FROBNICATOR\n   in source and binary forms\n   IS PERMITTED PROVIDED THAT THIS NOTICE IS RETAINED IN FULL",
+		// a file given with a path: the archive knows it by its file name
+		"vendor/licenses/Synthetic-Path.txt": "Use of the path finder in any form is allowed as long as the path that was found is credited to its finder",
+		"Synthetic-Twin.txt":                 "REDISTRIBUTION OF THE FROBNICATOR\n   in source and binary forms\n   IS PERMITTED PROVIDED THAT THIS NOTICE IS RETAINED IN FULL",
 	}
 	licenseclassifier.ReadLicenseFile = func(name string) ([]byte, error) {
 		if s, ok := synth[name]; ok {
@@ -307,7 +310,7 @@ func TestVerifC15(t *testing.T) {
 		var want []string
 		for _, f := range files {
 			if strings.HasSuffix(f, ".txt") {
-				want = append(want, strings.TrimSuffix(f, ".txt"))
+				want = append(want, strings.TrimSuffix(filepath.Base(f), ".txt"))
 			}
 		}
 		sort.Strings(want)
